@@ -127,6 +127,12 @@ func gen(e *vlib.Env) (gcw.Program, int) {
 			p.Subs = append(p.Subs, s)
 		}
 	}
+	if h := vlib.HashStr(e.ID() + "/idle-consumer"); h%5 == 0 {
+		// a consumer that settles what it received and then stops reading (nothing unsettled, nobody receiving): the next
+		// delivery stays parked on the channel send. Blocking mode: Publish legitimately waits; once the harness cancels
+		// that subscription (or closes the Pub/Sub) every Publish has to return.
+		p.Subs = append(p.Subs, gcw.SubSpec{Topic: int(h/5) % 2, Consumers: 1, StopAfter: int(h/10) % 3, NestedTo: -1, CancelAt: -1})
+	}
 	if churn {
 		// extra short-lived subscriptions coming and going
 		for i, n := 0, r.Range(1, 3); i < n; i++ {
@@ -148,6 +154,9 @@ func shape(p gcw.Program) string {
 		}
 		if sb.HoldFirstMs > 0 {
 			s += fmt.Sprintf(":hold%dms", sb.HoldFirstMs)
+		}
+		if sb.StopAfter >= 0 {
+			s += fmt.Sprintf(":stops-reading-after%d", sb.StopAfter)
 		}
 	}
 	return s
@@ -173,21 +182,36 @@ func run(e *vlib.Env) vlib.Result {
 		// so now every Publish has to return.
 		hasNever := false
 		for _, sp := range prog.Subs {
-			if sp.NeverAck {
+			if withholds(sp) {
 				hasNever = true
 			}
 		}
 		// ... "(or that subscription or the Pub/Sub was closed)": in half of these cases the whole Pub/Sub is closed instead
 		byClose := hasNever && vlib.HashStr(e.ID()+"/release-by-close")%2 == 0
 		if hasNever && !byClose {
-			for i, sp := range prog.Subs {
-				if sp.NeverAck {
-					rn.CancelSub(i)
+			// a withholding subscription whose Subscribe call was still waiting for the write lock does not exist yet when
+			// the others are cancelled; it appears (and withholds) afterwards: cancel again until none is left uncancelled
+			for round := 0; round <= len(prog.Subs); round++ {
+				n := 0
+				for _, s := range rn.SubRecs() {
+					if withholds(s.Spec) && s.CancelStart.Load() == 0 {
+						rn.CancelSub(s.ID)
+						n++
+						if s.Spec.StopAfter >= 0 {
+							res.Count("idle_consumer_subscriptions_cancelled_to_release_publishers", 1)
+						}
+					}
+				}
+				if n == 0 && round > 0 {
+					break
+				}
+				released = true
+				oc, dump = vlib.WaitClosed(rn.PubsDone(), vlib.WD)
+				if oc != vlib.Stuck {
+					break
 				}
 			}
-			released = true
 			res.Count("never_ack_subscriptions_cancelled_to_release_publishers", 1)
-			oc, dump = vlib.WaitClosed(rn.PubsDone(), vlib.WD)
 			if oc == vlib.Inconclusive {
 				res.Inconclusive("publishers neither finished nor quiescent after the never-acking subscriptions were cancelled")
 			}
@@ -231,6 +255,10 @@ func run(e *vlib.Env) vlib.Result {
 	return res
 }
 
+// withholds: the subscription may legitimately keep a blocking Publish waiting for ever - it never settles its first
+// message, or its only consumer stops reading (so a later delivery is never received, let alone acked)
+func withholds(sp gcw.SubSpec) bool { return sp.NeverAck || sp.StopAfter >= 0 }
+
 func judge(rn *gcw.Run, res *vlib.Result, stuck bool, dump string, released bool) {
 	prog := rn.Prog
 	blocking := prog.Cfg.BlockPublishUntilSubscriberAck
@@ -240,7 +268,7 @@ func judge(rn *gcw.Run, res *vlib.Result, stuck bool, dump string, released bool
 	// poisoned topics: a never-acking subscription (directly, or behind a nested publish) legitimately blocks publishers
 	poisoned := map[int]bool{}
 	for _, s := range subs {
-		if s.Spec.NeverAck {
+		if withholds(s.Spec) {
 			poisoned[s.Spec.Topic] = true
 		}
 	}
